@@ -313,7 +313,12 @@ NotMember(e) == e.k = "un" /\ e.v[1] = "not" /\ e.c[1].k = "cmp" /\ Len(e.c[1].v
 \* The writer keeps a stack of precedences; pr is its top when the node is visited.  operator_enter(p) parenthesises when
 \* pr > p and pushes p; visit_operand(x, q) pushes q around the visit of x; self.visit(x) alone leaves the stack as it is
 \* (items of displays, subscripts, slice bounds, call arguments inherit pr).
-RECURSIVE PI(_, _), PIItems(_, _, _), PICmpRest(_, _)
+\* Cython's parser builds `and` / `or` chains right-nested (p_rassoc_binop_expr): the source "a and b and c" -- the
+\* reference text of (a and b) and c -- is the tree a and (b and c) when the writer sees it.  Spine: the operands of
+\* the unparenthesised chain (a right operand that is itself a chain was parenthesised in the source: one operand).
+RECURSIVE Spine(_, _)
+Spine(e, op) == IF e.k = "bool" /\ e.v[1] = op THEN Spine(e.c[1], op) \o <<e.c[2]>> ELSE <<e>>
+RECURSIVE PI(_, _), PIItems(_, _, _), PICmpRest(_, _), PIBool(_, _, _, _)
 PIItem(x, pr) == CASE x.k = "kv" -> PI(x.c[1], pr) \o <<T(":")>> \o PI(x.c[2], pr)
                    [] x.k = "star" -> <<T("*")>> \o PI(x.c[1], pr)
                    [] x.k = "dstar" -> <<T("**")>> \o PI(x.c[1], pr)
@@ -327,6 +332,11 @@ PIItems(xs, i, pr) == IF i > Len(xs) THEN <<>>
 PISeq1(xs, pr) == PIItems(xs, 1, pr) \o (IF Len(xs) = 1 THEN <<T(",")>> ELSE <<>>)
 \* visit_PrimaryCmpNode follows node.cascade: every operator, every operand with prec + 1 = 5
 PICmpRest(e, i) == IF i > Len(e.v) THEN <<>> ELSE <<T(e.v[i])>> \o PI(e.c[i + 1], 5) \o PICmpRest(e, i + 1)
+\* the right-nested chain xs[i] op (xs[i+1] op (...)): every right operand is visited with prec + 1, so the writer
+\* parenthesises the tail of a chain of three or more ("a and (b and c)": same value, same short-circuit order)
+PIBool(xs, i, op, pr) == LET p == IF op = "or" THEN 1 ELSE 2 IN
+                         IF i = Len(xs) THEN PI(xs[i], pr)
+                         ELSE Enter(pr, p, PI(xs[i], p) \o <<T(op)>> \o PIBool(xs, i + 1, op, p + 1))
 IntLit(x) == x.k = "num" /\ x.v[1] \in IntLits
 IntNodeObj(x) == IntLit(x) \/ (FoldedNeg(x) /\ IntLit(x.c[1]))          \* isinstance(node.obj, IntNode), value "1" or "-1"
 PI(e, pr) ==
@@ -337,9 +347,10 @@ PI(e, pr) ==
                      ELSE IF NotMember(e) THEN PI(N("cmp", <<NegOp(e.c[1].v[1])>>, e.c[1].c), pr)
                      ELSE Enter(pr, CyPrec(e), <<T(e.v[1])>> \o PI(e.c[1], CyPrec(e)))
     \* visit_BinopNode (= visit_BoolBinopNode): the operand on the non-associative side is visited with prec + 1
-    [] e.k \in {"bin", "bool"} -> LET p == CyPrec(e)
-                                      r == e.v[1] = "**"
-                                  IN Enter(pr, p, PI(e.c[1], IF r THEN p + 1 ELSE p) \o <<T(e.v[1])>> \o PI(e.c[2], IF r THEN p ELSE p + 1))
+    [] e.k = "bin" -> LET p == CyPrec(e)
+                          r == e.v[1] = "**"
+                      IN Enter(pr, p, PI(e.c[1], IF r THEN p + 1 ELSE p) \o <<T(e.v[1])>> \o PI(e.c[2], IF r THEN p ELSE p + 1))
+    [] e.k = "bool" -> PIBool(Spine(e, e.v[1]), 1, e.v[1], pr)
     [] e.k = "cmp" -> IF IsMember(e) THEN <<A(EllipsisLeaf)>>                \* visit_Node with allow_unknown_nodes
                       ELSE Enter(pr, 4, PI(e.c[1], 5) \o PICmpRest(e, 1))
     \* visit_CondExprNode: operator_enter(0); true_val and condition with the precedence of `or`, false_val under the 0
@@ -374,7 +385,7 @@ ClosedAll(xs, i) == IF i > Len(xs) THEN TRUE ELSE Closed(xs[i]) /\ ClosedAll(xs,
 Closed(e) == e.k \notin {"name", "opq"} /\ ClosedAll(e.c, 1)
 FoldNode(g) == CASE g.k = "un" -> Closed(g.c[1]) /\ ~FoldedNeg(g)
                  [] g.k = "bin" -> Closed(g.c[1]) /\ Closed(g.c[2])
-                 [] g.k = "bool" -> Closed(g.c[1])
+                 [] g.k = "bool" -> LET sp == Spine(g, g.v[1]) IN \E i \in 1..Len(sp) - 1 : Closed(sp[i])   \* (right-nested chain)
                  [] g.k = "cond" -> Closed(g.c[2])
                  [] g.k = "cmp" -> \E i \in 1..Len(g.v) : Closed(g.c[i]) /\ Closed(g.c[i + 1])
                  [] g.k = "sub" -> Closed(g.c[1]) /\ g.c[2].k = "slice"        \* constant slicing of a literal sequence
